@@ -255,7 +255,7 @@ class Metabolite(Species):
             raise RuntimeError(f"metabolite '{self.id}' is not part of a model")
         # Due to below all-catch, which sucks, need to reraise these.
         except (RuntimeError, OptimizationError) as err:
-            raise err.with_traceback()
+            raise err
         # Would love to catch CplexSolverError and GurobiError here.
         except Exception as err:
             raise OptimizationError(
